@@ -186,6 +186,17 @@ CHECKS = {
         "Equivariance only where the scale estimate exceeds 1e-6 of the lane spread; offsets tied to |a|; tolerances 1e-9 (scale) / 1e-4 (z).",
         "DESIGN.md section 3 C15",
     ),
+    "C16": (
+        "exploration",
+        "complete enumeration of 3^8 statistics vectors x methods x thresholds vs an independent float64 thresholding reference; all application orders; all gulps",
+        "(a) All 6561 eight-channel statistics vectors over {base, base+delta, outlier} x {mad, iqrm} x thresholds {1,3,5}: the statistics mask "
+        "must equal an independent float64 re-implementation of double-MAD and IQRM thresholding; for a sub-grid x 6 frequency-range lists "
+        "(empty, exact centre, overlapping, outside, edges, reversed) x 4 custom functions x all 6 orders of apply_mask/apply_method/apply_funcn "
+        "the channel mask must be the union of the three masks and only grow. (b) clean_rfi for every gulp 1..N+1 and 10N at depths 8/32/4/2/1 "
+        "with default and explicit mask values: masked channels constant at the mask value, every other sample bit-identical. (c) HDF5 round trip.",
+        "Cases with |z| within 1e-4 of the threshold are skipped (none occur for the chosen alphabet). Channel centres are the library's float32 labels.",
+        "DESIGN.md section 3 C16",
+    ),
 }
 
 ENGINES = [
